@@ -72,6 +72,40 @@ CLAIMED["C16"] = dict(engine="sortblocks", design="4 C16",
         "unchanged' is checked by the harness oracle only (heap-level statement belongs to C07); model hand-written, tied by correspondence; "
         "extraction cross-checked by vm_compute",
    technique="Coq proof (induction over lists/derivations) + differential correspondence via extracted model + independent oracle")
+
+CLAIMED["C06"] = dict(engine="writer", design="4 C06",
+   text="Coq theorems over a model of writer.py against an independently written contract (Spec/C06.v): every str-valued library "
+        "under every format is written without exception as the block texts in library order joined by the separator (none after the last); "
+        "field line shape and comma rule by position; value column = len(indent)+value_column for short keys, no padding for long keys; "
+        "'auto' = 3 + longest key over all fields of all top-level entries, common and minimal; failed blocks of every subclass = configured "
+        "comment with {n} = len(raw.splitlines()) then the raw text verbatim; str.splitlines proved against a declarative line grammar. "
+        "Tied to /repo by differential correspondence through writer.write / write_string and by an independent Python oracle "
+        "that also checks the format object is unchanged.",
+   note="the 'format object unchanged' clause is heap-level (C07) and checked here only by the harness oracle; str.splitlines and str.format "
+        "({n}, {{ }} templates only) are CPython oracles modelled and compared on every run (ops 62/63); templates outside that class are "
+        "skipped; VAL_SEP and the default format are regenerated from the running module (val_sep = ' = ' is a Qed)",
+   technique="Coq proof + differential correspondence via extracted model + independent Python oracle")
+CLAIMED["C20"] = dict(engine="stack", design="4 C20",
+   text="Coq theorems, for arbitrary middleware semantics, splitter, codec and sinks: parse_string/write_string apply exactly the given stack "
+        "or default(+append)/(prepend+)default in left-to-right order, ValueError when both are given, parse_file/write_file forward to them, "
+        "BlockMiddleware.transform splices None/block/collection results in place and raises TypeError otherwise, Library(blocks) keeps "
+        "positions. Tied to /repo by correspondence with order-sensitive probe middlewares and shipped middlewares in every argument "
+        "position (lists, tuples, generators, iterators), real temp files in utf-8/latin-1/gbk/utf-16 with CRLF, path/StringIO/file-object "
+        "targets, and by an oracle that composes Splitter.split, mw.transform in order and writer.write manually.",
+   note="partial: codecs, universal-newline translation, the file system, the splitter and the shipped middlewares enter as oracles "
+        "(finite graphs supplied per case by the manual composition; a missing row is a disagreement); previous_block aliases are "
+        "compared as stubs; theorems are close to definitional by design - the correspondence pins the Python to them",
+   technique="Coq proof (generic in the middleware type) + differential correspondence via extracted model + manual-composition oracle")
+
+CLAIMED["C08"] = dict(engine="library", design="4 C08",
+   text="Coq theorems over the Library model with object identities (add/remove/replace incl. rollback, _add_to_dicts wrapping, eight views): the invariant "
+        "(dict views map exactly the held keys to those objects, no shared keys, class views partition blocks, strings/entries follow block order, only ValueError "
+        "is ever raised) holds after every history, order of blocks under add/remove/replace, raise-atomicity of all eight views up to Python == except finding K1 "
+        "(refuted witness proved); tied to /repo by bounded-exhaustive (depth 3/4/5) and random (depth 30) histories comparing all eight views by identity after "
+        "every call, plus an independent Python oracle.",
+   note="K1 (add fail_on_duplicate_key=True raises after appending) is a known finding; subclasses of Entry/String and caller-made failed blocks sharing one "
+        "exception object are outside the model; model hand-written, tied by correspondence; extraction cross-checked by vm_compute",
+   technique="Coq proof (representation invariant by induction over histories, explicit rollback computation) + differential correspondence via extracted model")
 PENDING = {}
 
 def main():
